@@ -523,6 +523,8 @@ def segment_rules(chk, repo):
         inner, ring = lps[0], lps[1]
         ra = ring['iter'].single_atom() if isinstance(ring['iter'], Poly) else None
         ia = inner['iter'].single_atom() if isinstance(inner['iter'], Poly) else None
+        if not (ra is not None and is_app(ra, ('range', 'arange'))) and not (ia is not None and is_app(ia, 'call:segmented.hex_ring')):
+            continue            # two loops, but not rings x segments of a ring (the rings are walked some other way)
         ring_ok = ra is not None and is_app(ra, ('range', 'arange')) and len(ra[2]) == 2 and ra[2][0] == C(1) and \
             ra[2][1] == S('rings') + 1
         via = ia is not None and is_app(ia, 'call:segmented.hex_ring') and \
@@ -741,6 +743,7 @@ def run(chk, repo, tier):
     array_holds_aperture(chk, repo, 'C20-k')
     chk.clause('C20-s', 'no helper mixes two different axes of one array (package-wide shape inference over util/helper/shape/segmented)', 1)
     fw = repo.func('util.window')
+    from ..interp import known_functions as _kfw
     _, wpaths, _ = analyse(repo, fw, config={'slice': NONE, 'shape': S('shape')})
     okw, nw, detw = True, 0, ''
     for p in returns(wpaths):
@@ -765,6 +768,13 @@ def run(chk, repo, tier):
         good = a is not None and is_app(a, 'call:util.pad') and \
             nf.strip_apps(dict((k.items[0].value, k.items[1]) for k in a[2]).get('array')) == S('img') and \
             dict((k.items[0].value, k.items[1]) for k in a[2]).get('shape') == S('shape')
+        if not good and a is not None and is_app(a, 'setitem') and not repo.has_func('util.pad') or \
+                (not good and a is not None and is_app(a, 'setitem') and any(is_app(x, 'zeros') for x in nf.value_atoms(p.ret))
+                 and any(g_.key not in _kfw() for g_ in repo.all_functions() if g_.module.name == 'util')):
+            # the padding is carried out by a helper introduced later (pad's own body moved): its alignment is what C20-a decides
+            okw = None if okw is not False else okw
+            detw = detw or 'undecided: the trim is done by a helper that is not `pad`'
+            continue
         if not good:
             okw, detw = False, f'a path returns {fmt(p.ret)[:100]} [{conds_str(p)[-80:]}]'
     chk.ob('C20-b', 'D-flow', fw.key, 'window(shape) trims about the centre with pad (which handles cubes) on every path',
